@@ -514,16 +514,19 @@ func (k *KVStore) scanCommon(cursor uint64, expr string, count int, f func(e sto
 	}
 
 	if tableCursor == 0 {
-		_, ok := k.tablesByCoefficient[cf+1]
+		next := cf + 1
+		_, ok := k.tablesByCoefficient[next]
 		if !ok {
-			cf, err = k.findCoefficient(cf)
+			// The coefficients have holes after compaction: continue with the
+			// first table after this one, do not jump over it.
+			next, err = k.findCoefficient(cf)
 			if err != nil {
-				// Invalid cursor
+				// This was the last table
 				return 0, nil
 			}
 		}
 		// The next table
-		return k.tableSize * (cf + 1), nil
+		return k.tableSize * next, nil
 	}
 
 	return tableCursor + (k.tableSize * cf), nil
